@@ -43,6 +43,16 @@ def check(ctx, cfg):
     r5(ctx, cfg)
     r6(ctx, cfg)
     r7(ctx, cfg)
+    r8(ctx, cfg)
+
+
+def r8(ctx, cfg):
+    """"a query issued through App observes exactly the committed state" of the contract that was asked: a smart query runs the queried
+    contract's code on the queried contract's storage window *with the queried contract's address in Env* (what its handler
+    reads about itself - its balance, its info - is looked up under that address): the C05.R4 obligations on with_storage /
+    with_storage_readonly under C10's id"""
+    from rules import C05
+    C05.r4(ctx, cfg, R="C10.R8")
 
 
 def r7(ctx, cfg):
